@@ -110,7 +110,8 @@ def _gen_spec(rng, last):
     if k == "centers":
         return {"centers": sorted(rng.sample([-2.0, -1.0, 0.0, 0.5, 1.0, 2.0, 4.0], rng.randint(2, 4)))}
     if k == "thresholds":
-        return {"thresholds": sorted(rng.sample([-2.0, -1.0, 0.0, 0.5, 1.0, 2.0, 4.0], rng.randint(1, 3)))}
+        th = rng.sample([-2.0, -1.0, 0.0, 0.5, 1.0, 2.0, 4.0], rng.randint(1, 3))
+        return {"thresholds": th if rng.random() < 0.5 else sorted(th)}  # a Stack takes its cuts in any order
     if k == "bag":
         return {"bag": True}
     return {k: True}
@@ -176,14 +177,25 @@ def _columns(df):
     return out
 
 
-def _direct(hg, df, feature, bin_specs, var_dtype):
+def _direct(hg, df, feature, bin_specs, var_dtype, rowwise=False):
     cols = feature.split(":")
     h = hg.Count()
     for col in reversed(cols):
         dt = var_dtype[col]
         spec = _spec_for(bin_specs, cols, cols.index(col), dt)
         h = _direct_one(hg, h, spec, (lambda d, c=col: d[c]), dt)
-    h.fill.numpy(_columns(df))
+    data = _columns(df)
+    if rowwise:
+        # one fill per row with plain Python values: shares no code with the vectorised path make_histograms uses
+        n = len(df)
+        for j in range(n):
+            rec = {}
+            for c in cols:
+                v = data[c][j]
+                rec[c] = v.item() if hasattr(v, "item") else v
+            h.fill(rec, 1.0)
+    else:
+        h.fill.numpy(data)
     return h
 
 
@@ -287,6 +299,17 @@ def run_case(i, rng, tier):
         if dd:
             bad("histogram %s differs from filling the same tree directly from the columns: %s" % (f, C.fmt_diff(dd)), feature=f, specs=S.jsonable(_safe_spec(rspecs, f)))
         compared += 1
+        # (2b) the same tree filled row by row (small frames; not where the C03 known finding about Sum and NaN applies)
+        if n <= 60 and not dd and "sum" not in repr(_safe_spec(rspecs, f)):
+            try:
+                d2 = _direct(hg, saved, f, rspecs, rdtype, rowwise=True)
+            except Exception:  # noqa: BLE001
+                counters["rowwise_direct_not_possible"] = counters.get("rowwise_direct_not_possible", 0) + 1
+            else:
+                dd2 = O.diff(O.drop_zero_sparse(O.observe(d2)), O.drop_zero_sparse(O.observe(h)), scale, drop_names=True)
+                counters["rowwise_direct_comparisons"] = counters.get("rowwise_direct_comparisons", 0) + 1
+                if dd2:
+                    bad("histogram %s differs from filling the same tree row by row: %s" % (f, C.fmt_diff(dd2)), feature=f, specs=S.jsonable(_safe_spec(rspecs, f)))
     # (3) homomorphism over chunks with the RETURNED specs
     k = rng.randint(1, 5)
     cuts = sorted(rng.randint(0, n) for _ in range(k - 1))
@@ -349,7 +372,7 @@ def _safe_spec(rspecs, f):
 
 def conclusive(agg):
     out = []
-    for c in ("mode:auto", "mode:unit", "mode:specs", "time_axis", "no_time_axis", "dims:1", "dims:2", "dims:3", "column:x", "column:i", "column:b", "column:t", "direct_comparisons", "homomorphism_comparisons"):
+    for c in ("mode:auto", "mode:unit", "mode:specs", "time_axis", "no_time_axis", "dims:1", "dims:2", "dims:3", "column:x", "column:i", "column:b", "column:t", "direct_comparisons", "rowwise_direct_comparisons", "homomorphism_comparisons"):
         if not agg.counters.get(c):
             out.append("never exercised: " + c)
     want = {"binWidth", "num", "edges", "centers", "thresholds", "maximize", "minimize", "average", "deviate", "sum", "bag", "fraction", "cut"}
